@@ -12,10 +12,10 @@ Import ListNotations.
 Definition skipcond (m : mark) (old new : cell) : bool :=
   negb (mark_eqb m MDamaged) && (mark_eqb m MIgnored || cell_eqb old new).
 
-Definition pstart (p : paint) : nat := match p with PChar _ c _ _ => c | PBlanks _ c _ _ => c end.
+Definition pstart (p : paint) : nat := match p with PChar _ c _ _ | PBlanks _ c _ _ | PErase _ c _ _ => c end.
 Definition plen (o : oracle) (p : paint) : nat :=
-  match p with PChar _ _ _ ch => cw o ch | PBlanks _ _ _ n => n end.
-Definition prow (p : paint) : nat := match p with PChar r _ _ _ => r | PBlanks r _ _ _ => r end.
+  match p with PChar _ _ _ ch => cw o ch | PBlanks _ _ _ n | PErase _ _ _ n => n end.
+Definition prow (p : paint) : nat := match p with PChar r _ _ _ | PBlanks r _ _ _ | PErase r _ _ _ => r end.
 
 (* paints are ordered and disjoint *)
 Fixpoint chain (o : oracle) (c : nat) (ps : list paint) : Prop :=
